@@ -112,6 +112,34 @@ CLAIMED = {
         "covered by C06/C07",
         "DESIGN.md 3 C09, Appendix A.1",
     ),
+    "C10": (
+        "spec/Flow.tla (section C10), spec/GridDefs.tla (VecMap), spec/MC_Flow.tla",
+        "a flow field is specified by its WORLD vector field; TLC computes its components in the four representations on two grids and "
+        "checks invertibility / path independence; the real FlowFields/FlowField objects must convert (16 pairs), resample, warp a ramp image "
+        "and exponentiate identically in every representation",
+        "world-constant fields on oriented anisotropic 2-D/3-D grids for axes()/sample()/warp_image()/normalize_flow/denormalize_flow and "
+        "per-field-grid batches; hull-invariant affine velocity fields for exp() in each representation",
+        "trusted: TLC, GridDefs (C01), the exactness of constant/affine fields under linear interpolation",
+        "DESIGN.md 3 C10",
+    ),
+    "C11": (
+        "spec/Flow.tla (section C11), spec/MC_Flow.tla",
+        "scaling and squaring as exact affine recursion d -> d + d o (id + d); TLC proves the closed form (I + sH/2^k)^(2^k) and the invariance "
+        "of the sample hull in every step for each admitted case, and emits the exact result; expv / ExpFlow / SVF transform / FlowFields.exp "
+        "compared at every grid point in float64 and float32; inverse flag decided relationally",
+        "all hull-invariant cases of the lattice (2-D/3-D shapes, both align_corners, 5+3 generators, scales, steps 0..2)",
+        "trusted: TLC, exactness of linear interpolation on affine fields inside the hull; convergence for large k not decided",
+        "DESIGN.md 3 C11",
+    ),
+    "C13": (
+        "spec/Flow.tla (section C13), spec/MC_Flow.tla",
+        "exact affine algebra: composition (A+B+BA, a+b+Ba), Lie bracket with explicit derivative units, BCH truncations 0..5 (Jacobi "
+        "identity checked by TLC), exact first logv iterates; compose_flows, lie_bracket, compose_svfs, logv compared at every grid point for "
+        "both align_corners conventions",
+        "all ordered pairs of the field lattice (incl. non-commuting pairs) x 6 BCH orders; commuting pairs reduce to the sum (TLC law)",
+        "trusted: TLC; approximation-error clauses for smooth non-affine fields are not decided (DESIGN section 4)",
+        "DESIGN.md 3 C13",
+    ),
     "C19": (
         "spec/Batch.tla, spec/MC_Batch.tla, spec/Trace_Batch.tla",
         "TLA+ state machine over programs of torch operations: each operation is given by its mathematical effect on the item "
